@@ -47,8 +47,9 @@ func (x *tsExtractor) run(start string) map[tsOutcome]bool {
 		switch v := in.(type) {
 		case *ssa.Store:
 			if x.isStateAddr(v.Addr) {
-				if cv := core.ConstVal(v.Val); cv != nil {
-					known = x.constName[cv.ExactString()]
+				// the constant stored - also when it was picked earlier on this path and kept in a variable
+				if k, ok := core.PathConst(v.Val); ok {
+					known = x.constName[k]
 					if known == "" {
 						known = "?"
 					}
@@ -288,7 +289,7 @@ func runC12(c *core.Ctx) {
 				if core.ResultNilness(ret, errIdx) == core.NonNil {
 					continue
 				}
-				if path, reached := core.Reach(fn, nil, isTarget(ret), nil, isHook); reached {
+				if path, reached := core.Reach(fn, nil, successReturn(ret, errIdx), nil, isHook); reached {
 					bad = true
 					wp = p.Witness(path)
 				}
